@@ -254,3 +254,60 @@ func VerifH_C11_compressed_poll_answered() {
 		verif.Assert(ok && string(dec) == "4out", "and it carries the buffered packet")
 	}
 }
+
+// VerifH_C11_binary_post_answered: a data request announcing a binary body
+// (Content-Type: application/octet-stream) on a revision-4 session -- not a legal payload
+// form there -- and on a revision-3 session (legal): the request receives exactly one
+// response either way (the session may be failed for it, but the request is not left hanging).
+func VerifH_C11_binary_post_answered() {
+	eio := [2]string{"4", "3"}[verif.Choose(2)]
+	p, rec := newPolling(eio)
+	p.SetMaxHttpBufferSize(1 << 20)
+	p.On("error", func(...any) { p.Close() }) // the session's reaction to a transport error
+	ctx, w := newCtx("POST", eio)
+	body := []byte{0x00, 0x02, 0xff, '4', 'a'} // v3 binary framing of the text packet "4a"
+	ctx.Request().Header.Set("Content-Type", "application/octet-stream")
+	ctx.Headers().Set("Content-Type", "application/octet-stream")
+	ctx.Request().ContentLength = int64(len(body))
+	ctx.Request().Body = &fakeBody{data: body}
+	p.OnRequest(ctx)
+	verif.Settle()
+	verif.Assert(w.writeCalls == 1 && len(w.status) == 1, "the data request receives exactly one response")
+	if eio == "3" {
+		verif.Assert(len(w.status) == 1 && w.status[0] == 200 && rec.count("packet") == 1, "a revision-3 binary payload is accepted and delivered")
+	} else {
+		verif.Assert(rec.count("packet") == 0 && rec.count("error") == 1, "a binary payload on revision 4 is refused and reported")
+		verif.Assert(len(w.status) == 1 && w.status[0] >= 400, "with an error status")
+	}
+}
+
+// VerifH_C11_poll_during_close: the session closes the polling transport between two polls
+// (the orderly close has to be buffered) and the client's next poll arrives at any yield
+// point of that close; afterwards the client stays silent past the close timeout: the poll
+// that was accepted is answered exactly once (it carries the close packet or is released),
+// no request is left hanging, and the transport ends closed, once.
+func VerifH_C11_poll_during_close() {
+	verif.RunTimed(func() {
+		w := newPollWorld("4")
+		var r *pollReq
+		verif.Event("the client's next poll arrives", func() {
+			r = w.request("GET", "poll", "")
+			r.accepted = true
+			w.p.OnRequest(r.ctx)
+		})
+		verif.InjectBudget(1)
+		w.p.Close(func() {})
+		verif.InjectBudget(0)
+		verif.Settle()
+		if r == nil {
+			r = w.request("GET", "poll", "")
+			r.accepted = w.p.ReadyState() != "closed"
+			w.p.OnRequest(r.ctx)
+			verif.Settle()
+		}
+		verif.SleepUntil(verif.Now() + int64(31e9))
+		verif.Settle()
+		verif.Assert(r.w.writeCalls == 1 && len(r.w.status) == 1, "the poll receives exactly one response, at the latest when the close timeout expires")
+		verif.Assert(w.p.ReadyState() == "closed" && w.rec.count("close") == 1, "the transport ends closed, exactly once")
+	})
+}
